@@ -1,6 +1,7 @@
 package main
 
 import (
+	"os"
 	"fmt"
 	"go/types"
 	"regexp"
@@ -102,6 +103,19 @@ func (x *X) callStatic(f *ssa.Function, args []Val, free []Val, in ssa.Instructi
 		}
 	}
 	if f.Blocks != nil && (isRepoPkg(pkgOf(f)) || inlinableStd[full]) {
+		if x.mode == modeVC && x.abstractCallee[shortFuncName(name)] {
+			if os.Getenv("GOVC_WSDEBUG") != "" {
+				w := x.fnWrites(f)
+				var ks []string
+				for k := range w.keys {
+					ks = append(ks, k)
+				}
+				sort.Strings(ks)
+				fmt.Fprintln(os.Stderr, "abstracted", name, "all:", w.all, "alloc:", w.alloc, ks)
+			}
+			x.havocWrites(x.fnWrites(f), "call of "+name+" (abstracted)")
+			return x.freshVal(resultType(f.Signature), sanitize(f.Name()))
+		}
 		if x.mode == modeVC && len(x.stack) >= 4 {
 			// deep in the call tree: forget what the callee does (sound: result and written heap unknown)
 			x.havocWrites(x.fnWrites(f), "call of "+name+" below the inlining depth")
@@ -578,6 +592,9 @@ func (x *X) lawsFor(f *ssa.Function, name string, ver int) {
 			}
 		}()
 		for _, m := range lemmasAbout(x.specs, name, 1<<30) {
+			if len(x.usesOnly) > 0 && !x.usesOnly[m.Name] {
+				continue
+			}
 			mpkg := pkgOf(f)
 			if pth, ok := x.specs.ForeignOf[m]; ok {
 				mpkg = x.prog.PPkgs[pth].Types
@@ -602,4 +619,15 @@ func (x *X) lawsFor(f *ssa.Function, name string, ver int) {
 func isForeign(sp *Specs, l *Lemma) bool {
 	_, ok := sp.ForeignOf[l]
 	return ok
+}
+
+// shortFuncName strips the package qualifier: "semver.(*Version).Canon" -> "(*Version).Canon".
+func shortFuncName(name string) string {
+	if strings.HasPrefix(name, "(") {
+		return name
+	}
+	if i := strings.Index(name, "."); i >= 0 {
+		return name[i+1:]
+	}
+	return name
 }
